@@ -196,14 +196,31 @@ def eq_class(o):
 def run_case(case, factory_of, subclass=False, eq=False, bare=False):
     prog, o = case["prog"], case["o"]
     made, st = [], {"anext": 0, "athrow": 0, "aclose": 0}
-    genfunc = make_genfunc(prog, made, st, again=(None,) if bare else None)
+    genfunc0 = make_genfunc(prog, made, st, again=(None,) if bare else None)
+    ncalls = {"genfunc": 0}
+
+    def genfunc():
+        ncalls["genfunc"] += 1
+        return genfunc0()
+
     cmf = factory_of(genfunc)
     blockexc = (eq_class(o) if eq else SUBCLASS[o] if subclass and o in SUBCLASS else SUBCLASS_GE[o] if subclass and o in SUBCLASS_GE else BLOCK[o])() if o != "normal" else None
     obs = {"bound": None, "entered": False}
 
-    async def body():
+    holder = {}
+
+    async def again():
+        # a second with-statement on the same manager object (spec action Reenter)
         try:
-            async with cmf() as v:
+            async with holder["cm"]:
+                return "entered-again"
+        except Exception:  # noqa: BLE001
+            return "refused"
+
+    async def body():
+        holder["cm"] = cmf()
+        try:
+            async with holder["cm"] as v:
                 obs["entered"] = True
                 obs["bound"] = v is VALUE
                 obs["enter_calls"] = st["anext"]
@@ -245,13 +262,19 @@ def run_case(case, factory_of, subclass=False, eq=False, bare=False):
         entered = "value" if obs["bound"] else "wrong-value"
         drive = (st["anext"] - obs["enter_calls"]) + st["athrow"]
         nres = drive if drive else min(st["aclose"], 1)
+    drive_before = (st["anext"], st["athrow"])
+    r2 = Task(again(), acct).run()
+    second = r2[1] if r2[0] == "done" else "escaped:" + type(r2[1]).__name__
+    if second == "refused" and (ncalls["genfunc"] != 1 or (st["athrow"] != drive_before[1])):
+        second = "refused-but-generator-made-or-driven-again"
     # what is thrown into the generator is the block's exception itself (the object, in one of the two calling conventions)
     thrown_ok = all(any(x is blockexc for x in a) for a in st.get("thrown", []))
     # the RuntimeErrors the manager raises itself (did not yield / did not stop / ignored GeneratorExit) are reports of
     # its own: raised without an explicit cause, so that nobody further out takes them for a converted Stop*Iteration
     if label in ("rt-noyield", "rt-nostop", "rt-ignored") and exc.__cause__ is not None:
         label += "+with-cause"
-    return {"label": label, "entered": entered, "nresume": nres, "acct_ok": acct.ok() and not acct.minted, "thrown_ok": thrown_ok}
+    return {"label": label, "entered": entered, "nresume": nres, "acct_ok": acct.ok() and not acct.minted, "thrown_ok": thrown_ok,
+            "second": second}
 
 
 def reuse_scenario(deco, nested):
@@ -304,6 +327,7 @@ NEXT Next
 CHECK_DEADLOCK FALSE
 INVARIANT ResumedOnce
 INVARIANT NotMisattributed
+INVARIANT SingleUse
 INVARIANT Emit
 """
 
@@ -352,6 +376,8 @@ def check(prop, tier, seed, into=None):
                 got_eq = run_case(c, contextlib.asynccontextmanager, eq=True)
                 if prog_label(got_eq, c) != prog_label(got, c):
                     mach.append({"case": {"prog": c["prog"], "o": c["o"] + "(eq)"}, "expected": got, "twin": got_eq})
+            if c["second"] != "-" and got["second"] != c["second"]:
+                mach.append({"case": {"prog": c["prog"], "o": c["o"]}, "what": "contextlib: second use of the manager object", "expected": c["second"], "twin": got["second"]})
             if not got.get("thrown_ok", True) or (c["o"] != "normal" and not got_eq.get("thrown_ok", True)):
                 mach.append({"case": {"prog": c["prog"], "o": c["o"]}, "what": "contextlib throws another object than the block's exception"})
             # contextlib closes the generator once more after 'did not stop': not a resume of the body
@@ -384,6 +410,8 @@ def check(prop, tier, seed, into=None):
                     v.violation("C13/contextmanager/generator-not-driven-exactly-once", {"engine": "ctxmgr", "cfg": cfg, "expected": exp, "observed": got})
                 if not got.get("acct_ok", True):
                     v.violation("C13/contextmanager/suspends-without-user-awaitable", {"engine": "ctxmgr", "cfg": cfg})
+                if c["second"] != "-" and got["second"] != c["second"]:
+                    v.violation("C13/contextmanager/manager-object-used-twice-is-driven-again", {"engine": "ctxmgr", "spec": "CtxMgr", "cfg": cfg, "expected": c["second"], "observed": got["second"]})
                 if not got.get("thrown_ok", True):
                     v.violation("C13/contextmanager/generator-thrown-another-object-than-the-block-exception", {"engine": "ctxmgr", "cfg": cfg, "observed": got})
     for nested in (False, True):
